@@ -434,6 +434,35 @@ def run(repo, rep, tier):
         rep.finding(r5, addcb.qualname, 'self._callbacks.append',
                     'not-append', LS, addcb.node.lineno,
                     'add_callback does not only append')
+    # a callback is registered once: the append runs only when the callback
+    # is not yet in the list by *equality* (two bound-method objects of the
+    # same method are equal but not identical - an identity test registers
+    # the callback twice and every indication is delivered to it twice)
+    from ..cfg import stmt_facts as _sf16
+    pcb = [p_ for p_ in addcb.params if p_ != 'self'][0]
+    for st_, (fs_, _t) in _sf16(addcb.node).items():
+        if not (isinstance(st_, ast.Expr) and
+                isinstance(st_.value, ast.Call) and
+                isinstance(st_.value.func, ast.Attribute) and
+                st_.value.func.attr == 'append' and
+                norm(st_.value.func.value) == 'self._callbacks'):
+            continue
+        r5.sites += 1
+        guarded = any(
+            isinstance(t_, ast.Compare) and len(t_.ops) == 1 and
+            norm(t_.left) == pcb and
+            norm(t_.comparators[0]) == 'self._callbacks' and
+            ((isinstance(t_.ops[0], ast.NotIn) and pol_) or
+             (isinstance(t_.ops[0], ast.In) and not pol_))
+            for t_, pol_ in fs_)
+        r5.ob(guarded, 'add_callback:once')
+        if not guarded:
+            rep.finding(r5, addcb.qualname, norm(st_, 60), 'registered-twice',
+                        LS, st_.lineno,
+                        'the callback is appended without the test `%s not '
+                        'in self._callbacks` (membership by equality): the '
+                        'same bound method passed twice is registered twice '
+                        'and receives every indication twice' % pcb)
     # nothing escapes between get and task_done
     ea = EscapeAnalysis(repo, Resolver(repo))
     ea.solve([deliver, run_cb])
